@@ -203,7 +203,7 @@ func runC15(c *Ctx) {
 	{
 		fn := p.Fn("sio", "clientSocket._sendBuffers")
 		name := "sio.clientSocket._sendBuffers"
-		isSend := callPred(`\(\*sio\.Manager\)\.packet`)
+		isSend := callPred(`\(\*sio\.Manager\)\.packet|\(\*sio\.packetQueue\)\.add`)
 		isBuf := storePred(`s\.sendBuffer`)
 		nz := Assume{`\(len\(buffers\) > 0\)`, true}
 		disc := []Assume{nz, {`\(s\.state == 0\)`, false}, {`\(s\.state == 1\)`, false}, {`forceSend`, false}}
@@ -225,7 +225,7 @@ func runC15(c *Ctx) {
 		isClrR := storeValPred(`s\.receiveBuffer`, `nil`)
 		skip, trail := CanReachExitAvoiding(fn, nil, isClrR)
 		c.Ob("C15-D3", name+"/receive-buffer-cleared", fn.Pos(), !skip, "a path through emitBuffered returns without clearing the receive buffer (its events would be delivered again on the next connect): "+trailString(p, trail))
-		isFlush := callPred(`\(\*sio\.Manager\)\.packet`)
+		isFlush := callPred(`\(\*sio\.Manager\)\.packet|\(\*sio\.packetQueue\)\.add`)
 		isClrS := storeValPred(`s\.sendBuffer`, `nil`)
 		ne := []Assume{{`\(len\(s\.sendBuffer\) != 0\)`, true}, {`\(len\(s\.sendBuffer\) == 0\)`, false}, {`\(len\(s\.sendBuffer\) > 0\)`, true}}
 		s2, t2 := PrunedCanReach(fn, nil, ne, nil, isFlush)
